@@ -7,9 +7,11 @@ import (
 	"encoding/json"
 	"errors"
 	"fmt"
+	"runtime"
 	"sort"
 	"strings"
 	"sync"
+	"testing/synctest"
 	"time"
 
 	"verifharness/sched"
@@ -39,8 +41,9 @@ type rtOp struct {
 type rtScenario struct {
 	Variant string   `json:"variant"` // plain | state
 	Retry   bool     `json:"retry"`
-	Seq     bool     `json:"seq"`  // sequential histories: settle the library after every move (C14)
-	NCtx    int      `json:"nctx"` // number of distinct root contexts
+	Seq     bool     `json:"seq"`   // sequential histories: settle the library after every move (C14)
+	Burst   bool     `json:"burst"` // M2: clients run their whole programs freely in parallel, then exact quiescence
+	NCtx    int      `json:"nctx"`  // number of distinct root contexts
 	Ticks   int      `json:"ticks"`
 	Clients [][]rtOp `json:"clients"`
 }
@@ -110,6 +113,9 @@ func genRoutine(x *sched.Exec) rtScenario {
 		switch o {
 		case "seq":
 			sc.Seq = true
+		case "burst":
+			sc.Burst = true
+			sc.Variant = "state"
 		case "plain":
 			sc.Variant = "plain"
 		case "state":
@@ -123,6 +129,35 @@ func genRoutine(x *sched.Exec) rtScenario {
 	ncl := 1 + r.Intn(2)
 	if sc.Seq {
 		ncl = 1
+	}
+	if sc.Burst {
+		// c1: context operations and restarts (their order is c1's program order); c2..: state operations
+		sc.Retry = false
+		sc.Ticks = 0
+		var p1 []rtOp
+		for j := 0; j < 4+r.Intn(5); j++ {
+			switch k := r.Intn(6); {
+			case k < 3:
+				p1 = append(p1, rtOp{Op: "setctx", C: 1 + r.Intn(sc.NCtx), R: r.Intn(2) == 0})
+			case k < 4:
+				p1 = append(p1, rtOp{Op: "clearctx"})
+			default:
+				p1 = append(p1, rtOp{Op: "restart"})
+			}
+		}
+		sc.Clients = append(sc.Clients, p1)
+		for i := 0; i < 2+r.Intn(2); i++ {
+			var p []rtOp
+			for j := 0; j < 3+r.Intn(5); j++ {
+				if r.Intn(5) == 0 {
+					p = append(p, rtOp{Op: "restart"})
+				} else {
+					p = append(p, rtOp{Op: "setstate", S: r.Intn(5)})
+				}
+			}
+			sc.Clients = append(sc.Clients, p)
+		}
+		return sc
 	}
 	nf := 0
 	for i := 0; i < ncl; i++ {
@@ -140,11 +175,15 @@ func genRoutine(x *sched.Exec) rtScenario {
 				prog = append(prog, rtOp{Op: "clearctx"})
 			case k < 7:
 				if sc.Variant == "state" {
-					prog = append(prog, rtOp{Op: "setstate", S: r.Intn(4)})
+					if r.Intn(5) == 0 {
+						prog = append(prog, rtOp{Op: "setsr"})
+					} else {
+						prog = append(prog, rtOp{Op: "setstate", S: r.Intn(4)})
+					}
 				} else {
 					nf++
 					f := nf*10 + i + 1
-					if r.Intn(6) == 0 {
+					if r.Intn(3) == 0 {
 						f = 0
 					}
 					prog = append(prog, rtOp{Op: "setroutine", F: f})
@@ -172,7 +211,22 @@ func (d *rtDriver) body(f int, arg int) func(ctx context.Context) error {
 		d.insts = append(d.insts, in)
 		d.mu.Unlock()
 		x.Log(trace.E{"ev": "enter", "inst": in.id, "tag": in.tag, "arg": arg, "f": f, "key": map[bool]int{true: arg, false: f}[f < 0], "dead": ctx.Err() != nil})
-		v := x.ParkUser(fmt.Sprintf("inst%d", in.id), func(p *sched.Park) { in.park = p })
+		var v any
+		if d.sc.Burst {
+			// autonomous behaviour: by state argument
+			switch arg % 3 {
+			case 0:
+				v = "ok"
+			case 1:
+				v = "err"
+			default:
+				<-ctx.Done()
+				v = "ctxret"
+			}
+			runtime.Gosched()
+		} else {
+			v = x.ParkUser(fmt.Sprintf("inst%d", in.id), func(p *sched.Park) { in.park = p })
+		}
 		out, _ := v.(string)
 		var err error
 		switch out {
@@ -298,6 +352,11 @@ func (d *rtDriver) opFunc(c *rtClient, op rtOp) sched.Op {
 			wch, changed, reset, running := d.sr.SetState(op.S)
 			x.Log(trace.E{"ev": "ret", "id": id, "op": op.Op, "changed": changed, "reset": reset, "running": running, "ch": d.regCh(wch), "actor": c.c.Name})
 			snap()
+		case "setsr":
+			x.Log(trace.E{"ev": "call", "id": id, "op": op.Op, "actor": c.c.Name})
+			wch, reset, running := d.sr.SetStateRoutine(func(ctx context.Context, st int) error { return d.body(-1, st)(ctx) })
+			x.Log(trace.E{"ev": "ret", "id": id, "op": op.Op, "reset": reset, "running": running, "ch": d.regCh(wch), "actor": c.c.Name})
+			snap()
 		case "restart":
 			x.Log(trace.E{"ev": "call", "id": id, "op": op.Op, "actor": c.c.Name})
 			var ok bool
@@ -351,7 +410,7 @@ func (d *rtDriver) Run(x *sched.Exec, raw json.RawMessage) json.RawMessage {
 	if sc.Retry {
 		opts = append(opts, routine.WithBackoff(&rtBackoff{d: d}))
 	}
-	x.Log(trace.E{"ev": "config", "variant": sc.Variant, "retry": sc.Retry, "seq": sc.Seq})
+	x.Log(trace.E{"ev": "config", "variant": sc.Variant, "retry": sc.Retry, "seq": sc.Seq, "burst": sc.Burst})
 	if sc.Variant == "state" {
 		d.sr = routine.NewStateRoutineContainer[int](func(a, b int) bool { return a == b }, opts...)
 		d.sr.SetStateRoutine(func(ctx context.Context, st int) error { return d.body(-1, st)(ctx) })
@@ -452,7 +511,24 @@ func (d *rtDriver) Run(x *sched.Exec, raw json.RawMessage) json.RawMessage {
 		x.Log(trace.E{"ev": "quiet", "live": live, "active": active, "blk": blk, "gstate": gs})
 		d.lastQ = fmt.Sprint(live, active, blk, gs, x.T.Seq())
 	}
-	x.Loop(moves, observe, 90)
+	if sc.Burst {
+		x.Policy = func(*sched.Actor, string, string, any) bool { return false } // hooks never park
+		for _, c := range d.cl {
+			prog := c.c.Prog
+			c.c.Prog = nil
+			x.Issue(c.c, func() {
+				for _, op := range prog {
+					op.Do()
+					runtime.Gosched()
+				}
+			})
+		}
+		x.Labels = append(x.Labels, "burst")
+		synctest.Wait()
+		observe()
+	} else {
+		x.Loop(moves, observe, 90)
+	}
 
 	// teardown
 	for _, c := range d.cl {
